@@ -133,22 +133,27 @@ def ssrbOutSeg (p : PDI) (kSeg os : Int) : Option Seg := do
 /-- `SSRB(in_proj_data_info, num_segments_to_combine, num_views_to_combine, num_tang_poss_to_trim,
     max_in_segment_num_to_process, num_tof_bins_to_combine)`; `none` = `error(...)`.
     The azimuthal offset / sampling (floats) are `ssrbPhi`. -/
-def ssrbInfo (p : PDI) (kSeg kView trim maxSegArg kTof : Int) : Option PDI := do
-  if kSeg.tmod 2 == 0 then none
-  let maxIn := if maxSegArg ≥ 0 then maxSegArg else p.maxSeg
-  if p.maxSeg < maxIn then none
-  if p.numTang ≤ trim then none
-  let numViews := p.numViews.tdiv kView
-  let (minTang, maxTang) := setNumTang (p.numTang - trim)
-  let outMax := ((if maxIn == -1 then p.maxSeg else maxIn) - kSeg.tdiv 2).tdiv kSeg
-  if outMax < 0 then none
-  let segs ← collect (ssrbOutSeg p kSeg) (irange (-outMax) outMax)
-  let (tofMash, minTof, maxTof) ←
-    if kTof != 1 then
-      if kTof < 1 then none else setTofMash p.T (p.tofMash * kTof)
-    else some (p.tofMash, p.minTof, p.maxTof)
-  some { p with minSeg := -outMax, segs := segs, numViews := numViews, minTang := minTang, maxTang := maxTang,
-                tofMash := tofMash, minTof := minTof, maxTof := maxTof }
+def ssrbMaxIn (p : PDI) (maxSegArg : Int) : Int := if maxSegArg ≥ 0 then maxSegArg else p.maxSeg
+
+/-- `out_max_segment_num` (SSRB.cxx:84-87; C division truncates towards zero) -/
+def ssrbOutMax (p : PDI) (kSeg maxSegArg : Int) : Int :=
+  ((if ssrbMaxIn p maxSegArg == -1 then p.maxSeg else ssrbMaxIn p maxSegArg) - kSeg.tdiv 2).tdiv kSeg
+
+/-- TOF part (SSRB.cxx:134-140) -/
+def ssrbTof (p : PDI) (kTof : Int) : Option (Int × Int × Int) :=
+  if kTof != 1 then (if kTof < 1 then none else setTofMash p.T (p.tofMash * kTof))
+  else some (p.tofMash, p.minTof, p.maxTof)
+
+def ssrbInfo (p : PDI) (kSeg kView trim maxSegArg kTof : Int) : Option PDI :=
+  -- the four `error` calls before the segment loop (their order is immaterial here)
+  if kSeg.tmod 2 == 0 ∨ p.maxSeg < ssrbMaxIn p maxSegArg ∨ p.numTang ≤ trim ∨ ssrbOutMax p kSeg maxSegArg < 0 then none
+  else
+    match collect (ssrbOutSeg p kSeg) (irange (-(ssrbOutMax p kSeg maxSegArg)) (ssrbOutMax p kSeg maxSegArg)), ssrbTof p kTof with
+    | some segs, some (tofMash, minTof, maxTof) =>
+      some { p with minSeg := -(ssrbOutMax p kSeg maxSegArg), segs := segs, numViews := p.numViews.tdiv kView,
+                    minTang := (setNumTang (p.numTang - trim)).1, maxTang := (setNumTang (p.numTang - trim)).2,
+                    tofMash := tofMash, minTof := minTof, maxTof := maxTof }
+    | _, _ => none
 
 /-- azimuthal angle (offset, sampling) of the output (SSRB.cxx:72-79, `ProjDataInfoCylindrical::set_num_views`),
     exact in `Rat` from the input's float offset and sampling -/
@@ -160,17 +165,17 @@ def ssrbPhi (offIn sampIn : Rat) (numViewsIn kView : Int) : Rat × Rat :=
 
 /-! ## `SSRB(ProjData& out, const ProjData& in, do_norm)`: the data -/
 
+/-- one step of the scan over the input segments (SSRB.cxx:201-230): `(in_min_segment_num, in_max_segment_num)` so far -/
+def inSegStep (og : Seg) (acc : Int × Int) (x : Int × Seg) : Option (Int × Int) :=
+  if x.2.minRD ≥ og.minRD ∧ x.2.maxRD ≤ og.maxRD then
+    some (if acc.1 > x.1 then x.1 else acc.1, if acc.2 < x.1 then x.1 else acc.2)
+  else if x.2.minRD > og.maxRD ∨ x.2.maxRD < og.minRD then some acc
+  else none
+
 /-- range of input segments rebinned into output segment `os` (SSRB.cxx:194-230):
     `some (in_min_segment_num, in_max_segment_num)`; `none` = `error` (overlapping ring-difference ranges) -/
 def inSegRange (pin : PDI) (og : Seg) : Option (Int × Int) :=
-  (List.zip (irange pin.minSeg pin.maxSeg) pin.segs).foldlM
-    (fun (acc : Int × Int) (x : Int × Seg) =>
-      let (s, sg) := x
-      if sg.minRD ≥ og.minRD ∧ sg.maxRD ≤ og.maxRD then
-        some (if acc.1 > s then s else acc.1, if acc.2 < s then s else acc.2)
-      else if sg.minRD > og.maxRD ∨ sg.maxRD < og.minRD then some acc
-      else none)
-    (pin.maxSeg, pin.minSeg)
+  (List.zip (irange pin.minSeg pin.maxSeg) pin.segs).foldlM (inSegStep og) (pin.maxSeg, pin.minSeg)
 
 /-- the first input axial position (the `break`) whose `m` equals `m4` (SSRB.cxx:268-274) -/
 def firstAxWithM (sg : Seg) (m4 : Int) : Option Int :=
